@@ -137,6 +137,34 @@ type pair struct {
 	val []byte
 }
 
+// asKey is the header text as a JSON object key can carry it: JSON strings are Unicode, so bytes that are not valid
+// UTF-8 arrive as U+FFFD (the statement's "header text" cannot mean more than that).
+func asKey(text string) string {
+	b, err := stdjson.Marshal(text)
+	if err != nil {
+		return text
+	}
+	var back string
+	if stdjson.Unmarshal(b, &back) != nil {
+		return text
+	}
+	return back
+}
+
+// keysCollide: two different header texts that JSON cannot tell apart (they differ in invalid bytes only): whether
+// that counts as a duplicate header is not said anywhere; such tables are outside the domain.
+func keysCollide(m *gen.Model) bool {
+	seen := map[string]string{}
+	for _, h := range m.Header {
+		k := asKey(h.Text)
+		if raw, ok := seen[k]; ok && raw != h.Text {
+			return true
+		}
+		seen[k] = h.Text
+	}
+	return false
+}
+
 // expect computes, from the model, whether an error is expected and otherwise the objects.
 func expect(c Case, m *gen.Model) (wantErr string, objs [][]pair) {
 	n := m.NCols()
@@ -194,7 +222,7 @@ func expect(c Case, m *gen.Model) (wantErr string, objs [][]pair) {
 			if string(enc) == "{}" && cell.Text != "" {
 				enc, _ = stdjson.Marshal(cell.Text)
 			}
-			obj = append(obj, pair{m.Header[i].Text, enc})
+			obj = append(obj, pair{asKey(m.Header[i].Text), enc})
 		}
 		objs = append(objs, obj)
 	}
@@ -269,6 +297,9 @@ func CheckCase(c Case) *ev.Violation {
 	}
 	if m.NCols() != m.MaxEver {
 		return nil // replaced, shorter header: column count ambiguous (not generated)
+	}
+	if m.HeaderSet && keysCollide(m) {
+		return nil
 	}
 	if t.NColumns() != m.NCols() {
 		return ev.V("NColumns()=%d but the build history has %d columns", t.NColumns(), m.NCols())
